@@ -41,7 +41,7 @@ META = {
     "assumptions": [
         "layout trees enumerated (listed in LAYOUTS; nesting depth <= 2, field widths <= 4, arrays <= 4 elements); all "
         "raw patterns and field values per layout",
-        "Struct/Union class metaprogramming (_AggregateMeta) is not decided; only Layout / View / Const",
+        "Struct/Union classes: only _AggregateMeta.const (three classes, every pair of calls); class creation, inheritance and annotations are not decided",
         "flag operators: exhaustive over all value pairs of the listed flag classes",
     ],
     "bounds": {"quick": {}, "thorough": {}},
